@@ -397,7 +397,7 @@ def _govmon(tr, cid):
     return govmon.monitor(tr, cid)
 
 
-register('C11', corr=trace_corr('gov', 'govcases', (48, 900), lambda op, code: op['op'] in ('execute', 'execProposal', 'callback', 'deliver') and code & 9, GOV_RULE, gov_nontrivial, monitor=_govmon),
+register('C11', corr=trace_corr('gov', 'govcases', (48, 900), lambda op, code: (op['op'] in ('execute', 'execProposal', 'callback') and code & 9) or (op['op'] == 'deliver' and code & 25), GOV_RULE, gov_nontrivial, monitor=_govmon),
          assumptions=['callbacks run to completion (gas metering is not modelled)', 'now + minimum delay below 2^64 (u64 addition)',
                       'the external target contract is abstracted to an outcome (success with return data / failure)'])
 register('C12', corr=trace_corr('gov', 'govcases', (48, 900), lambda op, code: (op['op'] in ('execute', 'execOperator', 'transferOp', 'withdraw', 'callback', 'gwApprove') and code & 25) or (op['op'] == 'withdrawRefund' and code & 17), GOV_RULE, gov_nontrivial, monitor=_govmon),
